@@ -15,7 +15,7 @@
 (* Edge sets are printed as bit-mask ids.  MODE = "enum": skeletons of      *)
 (* G(V, EMIN..EMAX); MODE = "cat": the named catalogue.                     *)
 (***************************************************************************)
-EXTENDS Symanzik, Expect, GraphGen, Catalogue, TLC, Json
+EXTENDS Symanzik, Expect, GraphGen, Catalogue, TLC, Json, SequencesExt
 CONSTANTS MODE, V, EMIN, EMAX, LMIN, LMAX, WSET, WD, DSET, PK, MSET, NROUT, NSAMP, STRIDE, OFFSET, NSK
 
 VARIABLE st
@@ -94,12 +94,19 @@ Draw ==
                 d |-> RandomElement(DSET),
                 m |-> [e \in 1..n |-> RandomElement(MSET)],
                 pmax |-> [e \in 1..n |-> [c \in 1..6 |-> RandomElement(PS)]],
-                w |-> [e \in 1..n |-> RandomElement(WSET)]]
+                w |-> [e \in 1..n |-> RandomElement(WSET)],
+                \* the order in which the edges are listed is part of the input: a random permutation of the skeleton ...
+                key |-> [e \in 1..n |-> RandomElement(1..1000)],
+                \* ... and every other draw a sparse reference flow (few external vertices, some of them far from edge 1)
+                sparse |-> RandomElement({TRUE, FALSE}),
+                mask |-> [e \in 1..n |-> RandomElement({0, 1})]]
 Decorate ==
    /\ st.k = "num"
    /\ LET n  == Len(st.es)
-          p0 == [e \in 1..n |-> [c \in 1..st.d |-> st.pmax[e][c]]]
-          g  == Decorated(st.es, st.m, p0, st.w, st.d)
+          perm == SortSeq([i \in 1..n |-> i], LAMBDA a, b : st.key[a] < st.key[b] \/ (st.key[a] = st.key[b] /\ a < b))
+          es == [i \in 1..n |-> st.es[perm[i]]]
+          p0 == [e \in 1..n |-> [c \in 1..st.d |-> IF st.sparse THEN st.mask[e] * st.pmax[e][c] ELSE st.pmax[e][c]]]
+          g  == Decorated(es, st.m, p0, st.w, st.d)
       IN /\ Accepted(g)
          /\ st' = [k |-> "g", g |-> g, m |-> st.m, p0 |-> p0, name |-> st.name]
 \* a fixed "chain" change of basis for L >= 3: new_1 = c_2 - c_3, new_2 = c_1 - c_2, new_j = c_j - c_(j+1), new_L = c_L.
